@@ -3,7 +3,7 @@ import UF.Proofs.Request
   Helper lemmas for C17 (`etld1_spec`): `strings.Split` / join / `LastIndex` on labels, and the
   hand-rolled `effectiveTLDPlusOne` = "public suffix plus one label".
 -/
-namespace UF
+namespace UF.H
 open Bytes
 
 def dotFree (c : UInt8) (l : Bytes) : Bool := l.all fun x => x != c
@@ -122,9 +122,9 @@ theorem exists_last_label (c : UInt8) (s : Bytes) :
     · right
       exact ⟨x :: p, l, by simp [hs], hl⟩
 
-end UF
+end UF.H
 
-namespace UF
+namespace UF.H
 open Bytes
 
 /-! ### Hostnames without empty labels -/
@@ -217,9 +217,9 @@ theorem effectiveTLDPlusOne_eq_ref (ext : Ext) (h : Bytes) (hn : noEmptyLabel h 
       rw [hd, hdrop, joinSep_cons_of_ne_nil _ _ _ hk, joinSep_splitByte]
       simp
 
-end UF
+end UF.H
 
-namespace UF
+namespace UF.H
 open Bytes
 
 /-! ### The functions always return a value -/
@@ -277,9 +277,9 @@ theorem newRequest_eq (ext : Ext) (url src : Bytes) (t : Nat) :
   refine ⟨h, sh, e, se, hh, hsh, he, hse, ?_⟩
   simp [newRequest, capURL_eq, hh, hsh, hd, hsd]
 
-end UF
+end UF.H
 
-namespace UF
+namespace UF.H
 open Bytes
 
 theorem joinSep_ne_nil (x : Bytes) (ys : List Bytes) (sep : Bytes) (hx : x ≠ []) :
@@ -312,4 +312,4 @@ theorem refETLD1_ne_nil (ext : Ext) (h d : Bytes) (hn : noEmptyLabel h = true)
       have hx : x ∈ labels := List.mem_of_mem_drop (by rw [hdrop]; simp)
       exact joinSep_ne_nil x ys _ (hall x hx)
 
-end UF
+end UF.H
